@@ -534,6 +534,19 @@ class PathEnum:
         elif retnode is None:
             q.env[key] = None
 
+    def _forget_computed_carried(self, loop, q, fr):
+        """One iteration stands for every iteration: a local that the loop body assigns from a CALL (a computed flag such as
+        `ready = self.checkFrame()`) holds, at the loop head, whatever an earlier iteration left in it -- not the constant it was
+        initialised with before the loop.  Its constant is forgotten on entry, so that a use that is not preceded by the
+        assignment in the same iteration (the assignment skipped by an exception, a branch) is explored for both outcomes.
+        Locals that are only ever assigned constants keep their value (flag fixpoints are computed by the rules that need them)."""
+        for n in ast.walk(loop):
+            if isinstance(n, ast.Assign) and isinstance(n.value, (ast.Call, ast.Await)):
+                for t in n.targets:
+                    for el in (t.elts if isinstance(t, (ast.Tuple, ast.List)) else [t]):
+                        if isinstance(el, ast.Name):
+                            q.env.pop((fr.fid, el.id), None)
+
     def _const_table(self, it, fr):
         """elements of a literal tuple/list iterated by a for statement -- written in place, bound once to a local of
         the function, or a class attribute (self.X / Cls.X); None for anything else"""
@@ -739,6 +752,7 @@ class PathEnum:
                     outs += self.block(s.orelse, q, fr) if s.orelse else [q]
                 else:
                     q.ev.append(Ev('loop', s, fr, 'enter'))
+                    self._forget_computed_carried(s, q, fr)
                     for r in self.block(s.body, q, fr):
                         if r.exit == 'break':
                             r.exit = None
@@ -764,6 +778,7 @@ class PathEnum:
             outs += self.block(s.orelse, qs, fr) if s.orelse else [qs]
             q1 = q0.fork()
             q1.ev.append(Ev('loop', s, fr, 'enter'))
+            self._forget_computed_carried(s, q1, fr)
             for r in self.block(s.body, q1, fr):
                 if r.exit == 'break':
                     r.exit = None
